@@ -1973,6 +1973,61 @@ class Interp:
 
     def ex_Call(self, expr, sts, fr, raised):
         func = expr.func
+        if isinstance(func, ast.Name) and sts:
+            # a local bound to `functools.partial(f, ...)` on this path: the call is `f(...)`
+            plain, out = [], []
+            for s in sts:
+                target = self._partial_target(expr, s, fr)
+                if target is None:
+                    plain.append(s)
+                else:
+                    out.extend(self.ex_Call(target, [s], fr, raised))
+            if out:
+                return out + (self.ex_Call_plain(expr, plain, fr, raised) if plain else [])
+        return self.ex_Call_plain(expr, sts, fr, raised)
+
+    _PARTIALS = {}
+
+    def _partial_target(self, expr, st: St, fr: DynFrame):
+        """``f(a, b, k=v)`` for a call ``name(b)`` where, on this path, the local ``name``
+        was last bound to ``partial(f, a, k=v)`` and what it captured was not re-bound"""
+        name = expr.func.id
+        store = position = None
+        for position in range(len(st.events) - 1, -1, -1):
+            event = st.events[position]
+            if event.kind == 'store' and event.data.get('local') and \
+                    event.data.get('path') == name and event.data.get('fid') == fr.fid:
+                store = event
+                break
+        if store is None:
+            return None
+        value = store.data.get('value')
+        if not (isinstance(value, ast.Call) and value.args and not any(
+                isinstance(a, ast.Starred) for a in value.args) and all(
+                kw.arg is not None for kw in value.keywords)):
+            return None
+        binding = self.p.resolve_dotted(fr.fn.module, value.func)
+        if not binding or binding[0] != 'ext' or binding[1] != 'functools.partial':
+            return None
+        captured = {n.id for part in list(value.args) + [kw.value for kw in value.keywords]
+                    for n in ast.walk(part) if isinstance(n, ast.Name)}
+        for event in st.events[position + 1:]:
+            if event.kind == 'store' and event.data.get('local') and \
+                    event.data.get('fid') == fr.fid and event.data.get('path') in captured:
+                return None
+        key = (id(expr), id(value))
+        found = self._PARTIALS.get(key)
+        if found is None or found[1] is not expr or found[2] is not value:
+            call = ast.Call(func=value.args[0], args=list(value.args[1:]) + list(expr.args),
+                            keywords=list(value.keywords) + list(expr.keywords))
+            ast.copy_location(call, expr)
+            call.origin_node = expr
+            found = (call, expr, value)
+            self._PARTIALS[key] = found
+        return found[0]
+
+    def ex_Call_plain(self, expr, sts, fr, raised):
+        func = expr.func
         if isinstance(func, ast.Attribute):
             sts = self.ev(func.value, sts, fr, raised)
         elif not isinstance(func, ast.Name):
